@@ -1,3 +1,16 @@
 //! Safe-Rust verification hooks for this module (accessors/wrappers only; no logic).
 #![allow(missing_docs, unused_imports, dead_code)]
 use super::*;
+
+// ---- statime_h (C42/C43): access to the estimator inside a LinkFilter
+pub type LinkFilterT<S> = super::LinkFilter<S>;
+pub type LinkFilterConfigT = super::LinkFilterConfig;
+pub fn filter_estimator<S: KalmanStorageBase>(f: &LinkFilter<S>) -> &EstimatorState<S> {
+    &f.estimation_state
+}
+pub fn filter_estimator_mut<S: KalmanStorageBase>(f: &mut LinkFilter<S>) -> &mut EstimatorState<S> {
+    &mut f.estimation_state
+}
+pub fn filter_link_count<S: KalmanStorageBase>(f: &LinkFilter<S>) -> usize {
+    f.links.0.len()
+}
